@@ -60,7 +60,7 @@ pub open spec fn sv_enc_list(l: Seq<SV>) -> Seq<u8>
 }
 
 /// Reference decoder (spec level): what a correct decoder must return on `b`.  None on malformed
-/// input and on maps (maps are not decided).
+/// input.  Maps are recognised and measured, their content is opaque.
 pub open spec fn sv_dec(b: Seq<u8>) -> Option<(SV, nat)>
     decreases b.len(), 1nat, 0nat
 {
@@ -89,7 +89,44 @@ pub open spec fn sv_dec(b: Seq<u8>) -> Option<(SV, nat)>
             }
         }
     }
+    else if b[0] == 8 {
+        // a map: count, then count entries (u32 key length, UTF-8 key, value).  The content of the map is
+        // not modelled (SV::Map is opaque); what is specified is WHICH byte strings are maps and how many
+        // bytes they occupy: a decoder must accept exactly these and consume exactly that many bytes.
+        if b.len() < 5 { None } else {
+            let count = from_le32(b.subrange(1, 5)) as nat;
+            match sv_dec_entries(b, 5, count) {
+                Some(end) => Some((SV::Map, end)),
+                None => None,
+            }
+        }
+    }
     else { None }
+}
+/// End position after `n` consecutive map entries of `b` starting at `pos` (None if malformed).
+pub open spec fn sv_dec_entries(b: Seq<u8>, pos: nat, n: nat) -> Option<nat>
+    decreases b.len(), 0nat, n
+{
+    if n == 0 { Some(pos) }
+    else {
+        match sv_dec_entries(b, pos, (n - 1) as nat) {
+            None => None,
+            Some(p) => {
+                if p < 1 || p + 4 > b.len() { None } else {
+                    let k_len = from_le32(b.subrange(p as int, p as int + 4)) as nat;
+                    if p + 4 + k_len > b.len() || !is_utf8(b.subrange(p as int + 4, p as int + 4 + k_len as int)) { None } else {
+                        let q = p + 4 + k_len;
+                        if q > b.len() { None } else {
+                            match sv_dec(b.skip(q as int)) {
+                                None => None,
+                                Some((v, c)) => Some(q + c),
+                            }
+                        }
+                    }
+                }
+            }
+        }
+    }
 }
 /// Decode `n` consecutive values of `b` starting at `pos`.
 pub open spec fn sv_dec_list(b: Seq<u8>, pos: nat, n: nat) -> Option<(Seq<SV>, nat)>
@@ -141,6 +178,38 @@ pub proof fn lemma_dec_consumes(b: Seq<u8>)
 {
     if b.len() > 0 && b[0] == 7 && b.len() >= 5 {
         lemma_dec_list_consumes(b, 5, from_le32(b.subrange(1, 5)) as nat);
+    }
+    if b.len() > 0 && b[0] == 8 && b.len() >= 5 {
+        lemma_dec_entries_consumes(b, 5, from_le32(b.subrange(1, 5)) as nat);
+    }
+}
+pub proof fn lemma_dec_entries_consumes(b: Seq<u8>, pos: nat, n: nat)
+    requires pos <= b.len(),
+    ensures sv_dec_entries(b, pos, n) is Some ==> pos <= sv_dec_entries(b, pos, n)->Some_0 <= b.len(),
+    decreases b.len(), 0nat, n
+{
+    if n > 0 {
+        lemma_dec_entries_consumes(b, pos, (n - 1) as nat);
+        match sv_dec_entries(b, pos, (n - 1) as nat) {
+            None => {}
+            Some(p) => {
+                if p >= 1 && p + 4 <= b.len() {
+                    let k_len = from_le32(b.subrange(p as int, p as int + 4)) as nat;
+                    let q = p + 4 + k_len;
+                    if q <= b.len() { lemma_dec_consumes(b.skip(q as int)); }
+                }
+            }
+        }
+    }
+}
+pub proof fn lemma_dec_entries_prefix(b: Seq<u8>, pos: nat, n: nat, k: nat)
+    requires sv_dec_entries(b, pos, n) is Some, k <= n,
+    ensures sv_dec_entries(b, pos, k) is Some,
+    decreases n - k
+{
+    if k < n {
+        assert(sv_dec_entries(b, pos, (n - 1) as nat) is Some);
+        lemma_dec_entries_prefix(b, pos, (n - 1) as nat, k);
     }
 }
 pub proof fn lemma_dec_list_consumes(b: Seq<u8>, pos: nat, n: nat)
